@@ -18,13 +18,17 @@
 //! cross-stream check are reported), and the receiver saw a clean end of message
 //! (declared length met / last chunk / END_STREAM / orderly close for close-delimited)
 //! exactly when the sender ended cleanly (abort scenarios end uncleanly on purpose).
+//! Message boundaries: an HTTP/1.1 receiver finds nothing between the end of a message and the start of the
+//! next one (class stray-bytes), and a trailer section arrives as one (class trailers): the lines between the
+//! last-chunk line and the final CRLF, all field lines / the H2 header block carrying END_STREAM.
 //!
 //! op blackbox <front h1|h2> <back h1|h2> <buffer_size> <n>
 //!             <req none|head|cl|clexp|chunked|chunkedtr|data|datacl|datatr> <req_size>
 //!             <resp cl|chunked|chunkedtr|close|data|datacl|datatr|head|s204|s304> <resp_size> <step> <chunk> <pad>
 //!             <cfrag> <cpause> <bfrag> <bpause> <sockbuf> <win> <abort 0|1|2> <seed>
-//!             [<stagger 0|1|2> <bset_delay_ms> <sep_end 0|1> <mix 0|1> <interim 0|103>]
-//! (sep_end: an H2 sender ends on an empty DATA frame of its own, also after a HEAD / 204 / 304 header block;
+//!             [<stagger 0|1|2|3> <bset_delay_ms> <sep_end 0|1> <mix 0|1> <interim 0|103>]
+//! (stagger: 1 = H2 streams attached one by one, 2 = HTTP/1.1 pipelining, 3 = H2 stream i+1 opened once stream i is answered;
+//!  sep_end: an H2 sender ends on an empty DATA frame of its own, also after a HEAD / 204 / 304 header block;
 //!  interim: the backend sends that 1xx in the same write as its final response, the client must see it once)
 //! output: obs ok|fail <exchanges> <req bytes> <resp bytes> ... / viol <class> <text>
 use std::{
@@ -98,6 +102,8 @@ struct Scn {
     stagger: bool,
     /// HTTP/1.1 client: all requests of the sequence in one write
     pipeline: bool,
+    /// H2 client: stream i is opened once the answer of stream i-1 has ended (stagger = 3)
+    sequential: bool,
     /// H2 senders end a body with a separate empty DATA frame carrying END_STREAM
     sep_end: bool,
     /// even exchanges are GETs with the response size, odd exchanges uploads with a 100-byte answer
@@ -154,7 +160,7 @@ impl Scn {
             "pair={}->{} n={} req={}:{} resp={}:{} step={} chunk={} pad={} cfrag={} cpause={} bfrag={} bpause={} sockbuf={} win={} abort={} bufsz={} stagger={} bset_delay_ms={} sep_end={} mix={}{}",
             if self.front_h2 { "h2" } else { "h1" }, if self.back_h2 { "h2" } else { "h1" }, self.n, self.req_fr, self.req_size,
             self.resp_fr, self.resp_size, self.step, self.chunk, self.pad, self.cfrag, self.cpause, self.bfrag, self.bpause,
-            self.sockbuf, self.win, self.abort, self.bufsz, if self.pipeline { 2 } else { self.stagger as u8 }, self.bset_delay_ms, self.sep_end as u8, self.mix as u8,
+            self.sockbuf, self.win, self.abort, self.bufsz, if self.pipeline { 2 } else if self.sequential { 3 } else { self.stagger as u8 }, self.bset_delay_ms, self.sep_end as u8, self.mix as u8,
             if self.interim != 0 { format!(" interim={}", self.interim) } else { String::new() }
         )
     }
@@ -196,6 +202,11 @@ struct Xchg {
     status: i32,
     /// interim (1xx) responses the client saw before the final one
     interims: Vec<i32>,
+    /// trailer fields ("name:value", lower case) the receiver of each direction saw after the body
+    req_trailers: Vec<String>,
+    resp_trailers: Vec<String>,
+    /// bytes a receiver found where a message boundary had to be (after the end of a message / before the next head)
+    stray: Vec<String>,
     /// the sender of that direction finished writing, or one of its writes returned EWOULDBLOCK
     req_sender_blocked_or_done: bool,
     resp_sender_blocked_or_done: bool,
@@ -219,6 +230,8 @@ struct Shared {
     unread: Mutex<(usize, usize)>,
     /// an h2c backend connection of this scenario has read sozu's connection preface
     backend_prefaces: std::sync::atomic::AtomicUsize,
+    /// bytes an HTTP/1.1 backend connection received that are not a request of any exchange
+    stray: Mutex<Vec<String>>,
 }
 
 /// bytes the kernel holds for the socket whose (local, remote) ports are given and that its owner has not read
@@ -526,7 +539,8 @@ enum BodyRd {
 
 impl BodyRd {
     /// consumes from `inb` and appends payload to `sink`; returns true when the body ended cleanly
-    fn feed(&mut self, inb: &mut Vec<u8>, sink: &mut Vec<u8>) -> bool {
+    /// `trailers` receives the lines of the trailer section of a chunked message
+    fn feed(&mut self, inb: &mut Vec<u8>, sink: &mut Vec<u8>, trailers: &mut Vec<String>) -> bool {
         loop {
             match self {
                 BodyRd::Len(0) => {
@@ -591,11 +605,19 @@ impl BodyRd {
                         // trailer section: lines until an empty one
                         let Some(pos) = inb.windows(2).position(|w| w == b"\r\n") else { return false };
                         let empty = pos == 0;
+                        let line = String::from_utf8_lossy(&inb[..pos]).to_string();
                         inb.drain(..pos + 2);
                         if empty {
                             *self = BodyRd::Done;
                             return true;
                         }
+                        // a trailer line is a field line: token ":" value
+                        let name_ok = line.split(':').next().map(|n| !n.is_empty() && n.bytes().all(|b| b.is_ascii_alphanumeric() || b"!#$%&'*+-.^_`|~".contains(&b))).unwrap_or(false);
+                        if !line.contains(':') || !name_ok {
+                            *self = BodyRd::Bad(format!("trailer section: {line:?} is not a field line"));
+                            return false;
+                        }
+                        trailers.push(line.to_ascii_lowercase().replace(": ", ":"));
                     }
                 },
                 BodyRd::UntilClose => {
@@ -608,6 +630,15 @@ impl BodyRd {
             }
         }
     }
+}
+
+fn show(b: &[u8]) -> String {
+    format!("{:?}{}", String::from_utf8_lossy(&b[..b.len().min(80)]), if b.len() > 80 { format!(" (+{} bytes)", b.len() - 80) } else { String::new() })
+}
+
+fn is_request_line(l: &str) -> bool {
+    let w: Vec<&str> = l.split(' ').collect();
+    w.len() == 3 && !w[0].is_empty() && w[0].bytes().all(|b| b.is_ascii_uppercase()) && w[1].starts_with('/') && (w[2] == "HTTP/1.1" || w[2] == "HTTP/1.0")
 }
 
 fn take_head(inb: &mut Vec<u8>) -> Option<String> {
@@ -887,10 +918,25 @@ fn h1_backend_conn(tcp: TcpStream, cur: Current) {
                 break h;
             }
             if c.eof || c.err || t_idle.elapsed() > Duration::from_secs(120) {
+                // a connection that ends between two requests ends on a message boundary
+                if !c.inb.is_empty() {
+                    if let Some(sh) = cur.lock().unwrap().clone() {
+                        if sh.scn.abort == 0 {
+                            sh.stray.lock().unwrap().push(format!("backend connection ended with {} bytes that are no request: {}", c.inb.len(), show(&c.inb)));
+                        }
+                    }
+                }
                 return;
             }
             c.pump(true);
         };
+        if !is_request_line(head.lines().next().unwrap_or("")) {
+            // not the start of a request: bytes that followed the previous message (or a broken head)
+            if let Some(sh) = cur.lock().unwrap().clone() {
+                sh.stray.lock().unwrap().push(format!("backend found bytes that are no request head where a request had to start: {}", show(head.as_bytes())));
+            }
+            continue;
+        }
         let path = head.lines().next().and_then(|l| l.split(' ').nth(1)).unwrap_or("").to_string();
         let Some((sh, idx)) = lookup(&cur, &path) else {
             // not a request of the running scenario (health probe, stale connection): plain answer
@@ -918,10 +964,19 @@ fn h1_backend_conn(tcp: TcpStream, cur: Current) {
         let mut got = 0usize;
         loop {
             let mut sink = vec![];
-            let done = rd.feed(&mut c.inb, &mut sink);
+            let mut tr = vec![];
+            let done = rd.feed(&mut c.inb, &mut sink, &mut tr);
             got += sink.len();
-            sh.with(idx, |x| x.req_recv.extend_from_slice(&sink));
+            sh.with(idx, |x| {
+                x.req_recv.extend_from_slice(&sink);
+                x.req_trailers.append(&mut tr);
+            });
             if done {
+                // sozu does not pipeline toward its backends: nothing may follow the request before it is answered
+                if !c.inb.is_empty() {
+                    let what = show(&c.inb);
+                    sh.with(idx, |x| x.stray.push(format!("backend: {} bytes right after the end of the request: {what}", c.inb.len())));
+                }
                 sh.with(idx, |x| x.req_end = End::Clean);
                 break;
             }
@@ -1105,7 +1160,11 @@ fn h2_backend_conn(tcp: TcpStream, cur: Current, win: u32) {
                             // a second header block on an open request stream: trailers
                             let idx = e.0;
                             if let (true, Some(sh)) = (end_stream, sh_opt.clone()) {
-                                sh.with(idx, |x| x.req_end = End::Clean);
+                                let tr: Vec<String> = hs.iter().map(|(k, v)| format!("{}:{}", String::from_utf8_lossy(k).to_ascii_lowercase(), String::from_utf8_lossy(v).to_ascii_lowercase())).collect();
+                                sh.with(idx, |x| {
+                                    x.req_trailers.extend(tr.iter().cloned());
+                                    x.req_end = End::Clean;
+                                });
                                 respond_h2(&mut c, tx.as_mut().unwrap(), &sh, sid, idx);
                                 rx.remove(&sid);
                             }
@@ -1394,6 +1453,10 @@ fn h1_client(front: SocketAddr, sh: Arc<Shared>) {
             }
             if head.is_none() {
                 if let Some(h) = take_head(&mut c.inb) {
+                    if !h.starts_with("HTTP/1.1 ") {
+                        let what = show(h.as_bytes());
+                        sh.with(i, |x| x.stray.push(format!("client: bytes that are no status line where the response had to start: {what}")));
+                    }
                     let status = h.split(' ').nth(1).and_then(|s| s.parse::<i32>().ok()).unwrap_or(-1);
                     if (100..200).contains(&status) {
                         // interim response: the final one follows; 100 Continue releases a held body
@@ -1414,10 +1477,26 @@ fn h1_client(front: SocketAddr, sh: Arc<Shared>) {
             }
             if head.is_some() {
                 let mut sink = vec![];
-                let done = rd.feed(&mut c.inb, &mut sink);
+                let mut tr = vec![];
+                let done = rd.feed(&mut c.inb, &mut sink, &mut tr);
                 got += sink.len();
-                sh.with(i, |x| x.resp_recv.extend_from_slice(&sink));
+                sh.with(i, |x| {
+                    x.resp_recv.extend_from_slice(&sink);
+                    x.resp_trailers.append(&mut tr);
+                });
                 if done {
+                    // nothing may follow a response before the next request is sent (one more read round for what
+                    // is still in flight; with pipelining the next answers may follow, their heads are checked)
+                    if !scn.pipeline || i + 1 == scn.n {
+                        if c.inb.is_empty() && !c.eof && !c.err {
+                            c.pump(true);
+                        }
+                        if !c.inb.is_empty() {
+                            let what = show(&c.inb);
+                            sh.with(i, |x| x.stray.push(format!("client: {} bytes right after the end of the response: {what}", c.inb.len())));
+                            c.err = true;
+                        }
+                    }
                     sh.with(i, |x| x.resp_end = End::Clean);
                     break;
                 }
@@ -1498,6 +1577,7 @@ fn h2_client(front: SocketAddr, sh: Arc<Shared>) {
     let mut total_got = 0usize;
     let mut paused_once = scn.cpause == 0;
     let mut tx_window_blocked = false;
+    let mut next_sid = 1u32;
     let mut hdr_acc: Option<(u32, u8, Vec<u8>)> = None;
     let mut open_streams = scn.n;
     let mut credit = Credit::new(scn.win, (0..scn.n).map(|i| scn.resp_len(i)).sum());
@@ -1534,6 +1614,11 @@ fn h2_client(front: SocketAddr, sh: Arc<Shared>) {
                         let Ok(hs) = dec.decode(&block) else { return fail("undecodable response header block") };
                         if let Some(e) = rx.get(&sid) {
                             let idx = e.0;
+                            if !hs.iter().any(|(k, _)| k == b":status") && flags & 1 != 0 {
+                                // a header block without :status that ends the stream: the trailer section
+                                let tr: Vec<String> = hs.iter().map(|(k, v)| format!("{}:{}", String::from_utf8_lossy(k).to_ascii_lowercase(), String::from_utf8_lossy(v).to_ascii_lowercase())).collect();
+                                sh.with(idx, |x| x.resp_trailers.extend(tr.iter().cloned()));
+                            }
                             if let Some((_, v)) = hs.iter().find(|(k, _)| k == b":status") {
                                 let st = String::from_utf8_lossy(v).parse::<i32>().unwrap_or(-1);
                                 if (100..200).contains(&st) && flags & 1 == 0 {
@@ -1598,7 +1683,13 @@ fn h2_client(front: SocketAddr, sh: Arc<Shared>) {
         // staggered mode (read-ack handshakes on shared state, no timing): stream i is opened once i backend
         // connections have read sozu's preface, or — one backend connection being up — once the request of
         // stream i-1 has reached the backend; all streams at once otherwise
-        let allowed = if !scn.stagger || sh.expired() {
+        let allowed = if scn.sequential && !sh.expired() {
+            let mut k = next_to_open.max(1);
+            while k < scn.n && sh.with(k - 1, |x| x.resp_end != End::Open).unwrap_or(true) {
+                k += 1;
+            }
+            k
+        } else if !scn.stagger || sh.expired() {
             scn.n
         } else {
             let prefaces = sh.backend_prefaces.load(std::sync::atomic::Ordering::SeqCst);
@@ -1637,7 +1728,10 @@ fn h2_client(front: SocketAddr, sh: Arc<Shared>) {
         if !to_open.is_empty() {
             opened = true;
             for i in to_open {
-                let sid = 1 + 2 * i as u32;
+                // stream identifiers increase in the order the streams are opened (RFC 9113 5.1.1), which in mix
+                // mode is not the order of the exchanges
+                let sid = next_sid;
+                next_sid += 2;
                 let body = pattern(scn.seed, i, 0, scn.req_len(i));
                 let mut block = vec![];
                 let post = scn.has_req_body(i);
@@ -1719,7 +1813,8 @@ fn h2_client(front: SocketAddr, sh: Arc<Shared>) {
         if !paused_once && total_got >= scn.cpause && opened && (scn.mix || (tx.idle() && !c.pending())) {
             // (an exchange whose upload waits for a WINDOW_UPDATE has no response sender yet)
             let waits_for_credit = |i: usize| scn.mix && tx_window_blocked && tx.streams.iter().any(|s| s.4 == i);
-            let all = (0..scn.n).all(|i| waits_for_credit(i) || sh.with(i, |x| x.resp_sender_blocked_or_done || x.resp_end != End::Open).unwrap_or(true))
+            // (a stream that is not open yet has no response sender either)
+            let all = (0..scn.n).all(|i| (scn.sequential && i >= next_to_open) || waits_for_credit(i) || sh.with(i, |x| x.resp_sender_blocked_or_done || x.resp_end != End::Open).unwrap_or(true))
                 && (tx.idle() || (scn.mix && tx_window_blocked))
                 && !c.pending()
                 && (!scn.mix || mix_phase == 2);
@@ -1878,7 +1973,7 @@ fn parse_scn(a: &[Tok], nonce: u64) -> Option<Scn> {
         front_h2: s(0) == "h2", back_h2: s(1) == "h2", bufsz: n(2) as u64, n: n(3).max(1), req_fr: s(4), req_size: n(5), resp_fr: s(6),
         resp_size: n(7), step: n(8), chunk: n(9).max(1), pad: n(10), cfrag: n(11), cpause: n(12), bfrag: n(13), bpause: n(14),
         sockbuf: n(15), win: n(16) as u32, abort: n(17) as u8, seed: n(18) as u64, nonce,
-        stagger: a.len() > 19 && n(19) == 1, pipeline: a.len() > 19 && n(19) == 2 && s(0) == "h1", bset_delay_ms: if a.len() > 20 { n(20) as u64 } else { 0 },
+        stagger: a.len() > 19 && n(19) == 1, pipeline: a.len() > 19 && n(19) == 2 && s(0) == "h1", sequential: a.len() > 19 && n(19) == 3 && s(0) == "h2", bset_delay_ms: if a.len() > 20 { n(20) as u64 } else { 0 },
         sep_end: a.len() > 21 && n(21) != 0, mix: a.len() > 22 && n(22) != 0,
         interim: if a.len() > 23 { n(23) as i32 } else { 0 },
     })
@@ -1895,9 +1990,9 @@ fn run_scn(env: &mut Env, scn: Scn, out: &mut Out) {
     let total: usize = (0..scn.n).map(|i| scn.req_len(i) + scn.resp_len(i)).sum();
     let deadline = Instant::now() + Duration::from_secs(60 + (total / 200_000) as u64);
     let xs = (0..scn.n)
-        .map(|_| Xchg { req_recv: vec![], req_end: End::Open, resp_recv: vec![], resp_end: End::Open, status: 0, interims: vec![], req_sender_blocked_or_done: false, resp_sender_blocked_or_done: false, notes: vec![] })
+        .map(|_| Xchg { req_recv: vec![], req_end: End::Open, resp_recv: vec![], resp_end: End::Open, status: 0, interims: vec![], req_trailers: vec![], resp_trailers: vec![], stray: vec![], req_sender_blocked_or_done: false, resp_sender_blocked_or_done: false, notes: vec![] })
         .collect();
-    let sh = Arc::new(Shared { scn: scn.clone(), x: Mutex::new(xs), deadline, progress: Mutex::new((0, Instant::now())), client_ports: Mutex::new(vec![]), backend_peer_ports: Mutex::new(vec![]), unread: Mutex::new((0, 0)), backend_prefaces: std::sync::atomic::AtomicUsize::new(0) });
+    let sh = Arc::new(Shared { scn: scn.clone(), x: Mutex::new(xs), deadline, progress: Mutex::new((0, Instant::now())), client_ports: Mutex::new(vec![]), backend_peer_ports: Mutex::new(vec![]), unread: Mutex::new((0, 0)), backend_prefaces: std::sync::atomic::AtomicUsize::new(0), stray: Mutex::new(vec![]) });
     *env.cur.lock().unwrap() = Some(sh.clone());
     let front = if scn.front_h2 { w.https } else { w.http };
     let shc = sh.clone();
@@ -2006,11 +2101,31 @@ fn run_scn(env: &mut Env, scn: Scn, out: &mut Out) {
         }
         ok &= check("request", &req, &x.req_recv, x.req_end, true, out);
         ok &= check("response", &resp, &x.resp_recv, x.resp_end, scn.abort != 1 || resp.len() < 2, out);
+        // message boundaries: nothing between the end of a message and the start of the next one
+        if !x.stray.is_empty() {
+            out.viol("stray-bytes", &format!("exchange {i}: {} ({shape}){notes}", x.stray.join("; ")));
+            ok = false;
+        }
+        // a trailer section sent after a body without content-length arrives as a trailer section (HTTP/1.1: between
+        // the last-chunk line and the final CRLF; HTTP/2: a header block with END_STREAM), never as part of anything else
+        if scn.abort == 0 {
+            for (dir, sent, got) in [("request", scn.req_trailers() && scn.has_req_body(i), &x.req_trailers), ("response", scn.resp_trailers(), &x.resp_trailers)] {
+                let want: Vec<String> = if sent { vec!["x-trailer:t".to_string()] } else { vec![] };
+                if *got != want {
+                    out.viol("trailers", &format!("exchange {i}: the {dir} was sent with the trailer section {want:?}, the receiver saw {got:?} ({shape}){notes}"));
+                    ok = false;
+                }
+            }
+        }
         // an interim response is forwarded, once, before the final one (RFC 9110 15.2)
         if scn.interim != 0 && scn.abort == 0 && x.interims.iter().filter(|c| **c == scn.interim).count() != 1 {
             out.viol("interim-lost", &format!("exchange {i}: the backend sent one {} before its final answer, the client saw interim responses {:?} ({shape}){notes}", scn.interim, x.interims));
             ok = false;
         }
+    }
+    for s in sh.stray.lock().unwrap().iter() {
+        out.viol("stray-bytes", &format!("{s} ({shape})"));
+        ok = false;
     }
     if !alive {
         out.viol("worker-died", &format!("the worker thread ended during the scenario ({shape})"));
